@@ -23,10 +23,11 @@ func init() {
 	core.Register(&core.Property{
 		ID: "C36",
 		Rule: "(anchor) the (query, expected fingerprint) pairs extracted from mysql/sql_fingerprint_test.go; " +
-			"(mm) statements of a SELECT/INSERT/UPDATE/DELETE token grammar rendered twice: variants (literals replaced, keywords re-cased, white space re-spaced, " +
-			"comments of the three styles inserted spaced, glued, leading, before/inside/after IN/VALUES lists, optional blanks added or removed, unusual literal spellings) " +
+			"(mm) statements of a SELECT/INSERT/UPDATE/DELETE token grammar rendered twice: variants (literals replaced, keywords re-cased, white space re-spaced incl. \\v/\\f, " +
+			"comments of the three styles spaced or glued in every gap that has a blank: between words, after literals, before/inside/after IN/VALUES lists, leading and trailing; " +
+			"literal spellings: signs, doubled quotes, e+ exponents, leading dots, hex/bit strings; optional blanks added or removed = the open class optional-space) " +
 			"and structural mutants (identifier, operator, keyword, added predicate, dropped WHERE, list element); statement A is the blacklist entry, A and B are checked with IsSQLAllowed; " +
-			"(th) statements of the token grammar of the theorems (every token followed by white space and comments), whose fingerprint the theorem predicts; " +
+			"(th) statements of the token grammar of the theorems (chunks of glued word text and literals, value lists with several rows, comments anywhere incl. inside lists, ON DUPLICATE KEY UPDATE), whose fingerprint the theorem predicts; " +
 			"(bl) blacklists of several entries (blank, padded, duplicated) against variants, unrelated statements and the entries themselves; " +
 			"(fp) a character/keyword soup aimed at the state machine (malformed stream). " +
 			"non-trivial = GetFingerprint returned (no panic, ASCII text)",
